@@ -105,6 +105,8 @@ pub struct Profile {
     /// every object is only ever created on its home replica (index mod replicas): no same-uuid
     /// creates, hence no conflict entries at all
     pub home_creates: bool,
+    /// fraction (of 4) of replicated histories whose replicas have skewed clocks
+    pub skewed_quarters: u64,
 }
 
 fn pick_obj(rng: &mut Rng, v: &[Obj]) -> Obj {
@@ -303,6 +305,7 @@ pub fn run_histories_ext(run: &mut Run, args: &Args, prop_salt: u64, histories: 
                         replicas: nrep,
                         level: prof.level,
                         unique_names: prof.unique_names,
+                        skew: nrep > 1 && rng.below(4) < prof.skewed_quarters,
                         file_backed: if prof.file_backed { Some(if rng.bool() { Some(64) } else { Some(2048) }) } else { None },
                     };
                     let mut w = World::new(&cfg, &mut rng).await;
@@ -375,6 +378,12 @@ pub fn run_histories_ext(run: &mut Run, args: &Args, prop_salt: u64, histories: 
                         }
                         if quiesced || !hooks.quiesce {
                             acc.count("histories_judged_at_end");
+                        }
+                        if verbose {
+                            println!("  -- quiescence phase --");
+                            for l in w.log.iter().skip(nops) {
+                                println!("  {:3} {:?} -> {} {}", l.seq, l.op, if l.ok { "ok" } else { "ERR" }, l.detail);
+                            }
                         }
                         f.extend((hooks.at_end)(&w, quiesced, &snaps, &mut acc));
                         if let Some(x) = ext {
